@@ -192,6 +192,10 @@ def _len(ex, args, kwargs, node):
         return VInt(a.KL.len(a.keys))
     if isinstance(a, VSet):
         return VInt(L.enum_theory(a.et.sort())[2](a.t))
+    if isinstance(a, VOpaque):
+        n = ex.st.fresh_const("len_opaque", L.Int)  # length of an unmodelled container
+        ex.st.assume(n >= 0)
+        return VInt(n)
     if isinstance(a, VFalseOr):
         ex.oblige("noraise.len_of_False", node, z3.Not(a.isfalse))
         return _len(ex, [a.val], kwargs, node)
@@ -805,3 +809,51 @@ def _list(ex, args, kwargs, node):
     if isinstance(x, VSet):
         return x.enum()
     raise Unsupported("list() of this argument")
+
+
+# ---------------------------------------------------------------------------
+# TB-pd: a pandas DataFrame as one map row-position -> value per column; df.at[r, c] = v
+# ---------------------------------------------------------------------------
+DF_COLS = {"index": L.Int, "result": L.Bool, "inference_timed_out": L.Bool, "preprocessing_timed_out": L.Bool, "query": StrSort}
+
+
+@fn("pandas.DataFrame", tb="TB-pd")
+def _dataframe(ex, args, kwargs, node):
+    cols = {c: ex.st.fresh_const(f"df!{c}", z3.ArraySort(L.Int, s)) for c, s in DF_COLS.items()}
+    ref = ex.st.alloc({"kind": "df", "cols": cols})
+    return VRef(ref, TOpaque)
+
+
+@fn("pandas.Series", tb="TB-pd")
+def _series(ex, args, kwargs, node):
+    return VOpaque("series")
+
+
+def df_store(ex, df, row, col, v, node):
+    rec = ex.st.obj(df.ref)
+    if not (isinstance(col, VStr) and col.const is not None) or not isinstance(row, VInt):
+        raise Unsupported("df.at[...] with non-literal column / non-int row")
+    if col.const not in DF_COLS:
+        return  # timing / descriptive columns are not modelled
+    sort = DF_COLS[col.const]
+    if isinstance(v, VBool) or isinstance(v, VInt) or isinstance(v, VStr):
+        t = v.t
+    else:
+        raise Unsupported(f"df.at[..., {col.const}] = value of type {v.ty}")
+    if t.sort() != sort:
+        raise Unsupported(f"df column {col.const}: sort {t.sort()} stored")
+    cols = dict(rec["cols"])
+    cols[col.const] = z3.Store(cols[col.const], row.t, t)
+    ex.st.update(df.ref, cols=cols)
+
+
+@fn("builtins.enumerate", tb="TB-py")
+def _enumerate(ex, args, kwargs, node):
+    seq = ex.as_sequence(args[0], node)
+    start = kwargs.get("start", args[1] if len(args) > 1 else VInt(0))
+    return VSeq(seq.len(), lambda i: VTuple([VInt(start.t + i), seq.at(i)]))
+
+
+@fn("builtins.round", tb="TB-py")
+def _round(ex, args, kwargs, node):
+    return VFloat()
